@@ -88,6 +88,9 @@ Seeds ==
                          : r \in refRows}
             \cup {<<ntbag, NewArgs("align", AMINOACIDS, 0, <<Row(nA, x), Row(nB, y)>>)>> :
                      x \in placements(<<77, 75>>, 3), y \in placements(<<77, 80>>, 3)}
+            \* gap-free alignments: reference-guided translation must coincide with plain translation in every frame
+            \cup {<<NewArgs("align", NUCLEOTIDS, 0, <<Row(nA, <<65, 84, 71, 67, 65, 84, 71, 65>>), Row(nB, <<65, 67, 71, 84, 84, 71, 67, 65>>)>>), small>>,
+                   <<NewArgs("align", NUCLEOTIDS, 0, <<Row(nA, <<97, 117, 103, 67, 82, 84, 71, 65, 65>>), Row(nB, <<65, 67, 71, 84, 84, 78, 67, 65, 84>>)>>), small>>}
             \cup {<<ntbag, NewArgs("align", AMINOACIDS, 0, <<Row(nA, <<77, 75, 88>>), Row(nB, <<77, 45, 45>>)>>)>>,
                    <<ntbag, NewArgs("align", AMINOACIDS, 0, <<Row(nA, <<77, 45, 45>>), Row(nZ, <<77, 80, 45>>)>>)>>}
     [] Profile = "C12" ->
@@ -170,7 +173,11 @@ RangeLists(pl) == {<<Rg(0, 0, pl - 1, 2), Rg(1, 1, pl - 1, 2)>>,
                    <<Rg(1, 1, pl - 1, 1), Rg(0, 0, 0, 1)>>,
                    <<Rg(0, 0, pl - 1, 1), Rg(1, 0, 0, 1)>>,
                    <<Rg(0, 0, pl - 3, 2), Rg(0, pl - 2, pl - 1, 1), Rg(1, 1, pl - 3, 2)>>,
-                   <<Rg(0, 0, 1, 2), Rg(0, 2, pl - 1, 1), Rg(1, 1, 1, 1)>>}
+                   <<Rg(0, 0, 1, 2), Rg(0, 2, pl - 1, 1), Rg(1, 1, 1, 1)>>,
+                   \* a stepped interval whose declared end is past the alignment although its last visited site is inside
+                   <<Rg(0, 0, pl, 2), Rg(1, 1, pl - 1, 2)>>, <<Rg(0, 0, pl + 1, 2), Rg(1, 1, pl - 1, 2)>>,
+                   <<Rg(0, 0, pl, 3), Rg(1, 1, pl - 1, 3), Rg(2, 2, pl - 1, 3)>>,
+                   <<Rg(0, 0, pl - 1, 3), Rg(1, 1, pl + 1, 3), Rg(2, 2, pl - 1, 3)>>}
 InstC06(h) ==
   UNION {{Inst("ReverseComplement", r, NoArg), Inst("ToUpper", r, NoArg), Inst("ToLower", r, NoArg), Inst("Unalign", r, NoArg)}
          \cup {Inst("ReverseComplementSequences", r, [names |-> ns]) : ns \in SeqsUpTo(Names3, 2)}
